@@ -173,6 +173,7 @@ static bool parseScenario(const std::string & s)
 
 static bool execute(vs::Strategy * strategy, long execNo)
 {
+	armWatchdog(120);      // per execution: a long exploration must not look like a hang
 	vs::Sched * schedp = new vs::Sched();
 	vs::Sched & sched = *schedp;
 	vs::S = schedp;
